@@ -221,12 +221,14 @@ Proof.
   destruct (cmd_type name) eqn:Et; try congruence;
     try (apply single_sim; auto; cbn [cmd_dtype]; rewrite Et; discriminate).
   - (* MSET *)
+    destruct args as [|a0 args0]; [unfold sim; cbn [fst snd]; split; reflexivity|]. remember (a0 :: args0) as args.
     unfold Compress.exec_mset. pose proof (mset_loop_sim s Hs args lg) as [H1 H2].
     destruct (mset_loop s (enc lg) args) as [st' reps]. destruct (mset_loop Disabled lg args) as [lg' reps'].
     cbn [fst snd] in H1, H2. subst st' reps. unfold sim.
     destruct reps' as [[|r0 l]|]; cbn [fst snd]; try (split; reflexivity).
     destruct (first_error (r0 :: l)); cbn [fst snd]; split; reflexivity.
   - (* MSETNX *)
+    destruct args as [|a0 args0]; [unfold sim; cbn [fst snd]; split; reflexivity|]. remember (a0 :: args0) as args.
     unfold Compress.exec_msetnx. destruct (pairs_of args) as [[|p ps]|]; try (unfold sim; cbn [fst snd]; split; reflexivity).
     assert (H : sim (single s (enc lg) (n_MSETNX :: args)) (single Disabled lg (n_MSETNX :: args))).
     { apply single_sim; auto; cbn [cmd_dtype]; rewrite ?type_MSETNX; try discriminate; try reflexivity. }
@@ -235,7 +237,7 @@ Proof.
     destruct rep1'; cbn [fst snd]; try (split; reflexivity).
     destruct (btou u64_max b); cbn [fst snd]; split; reflexivity.
   - (* MGET *)
-    unfold Compress.exec_mget. destruct args as [|k0 keys]; [unfold sim; cbn [fst snd]; split; reflexivity|].
+    destruct args as [|k0 keys]; [unfold sim; cbn [fst snd]; split; reflexivity|]. unfold Compress.exec_mget.
     pose proof (mget_loop_sim s Hs (k0 :: keys) lg) as [H1 H2].
     destruct (mget_loop s (enc lg) (k0 :: keys)) as [st' reps]. destruct (mget_loop Disabled lg (k0 :: keys)) as [lg' reps'].
     cbn [fst snd] in H1, H2. subst st' reps. unfold sim.
@@ -315,8 +317,7 @@ Proof.
   - intros x. cbn. unfold get_reply. rewrite Hl. reflexivity.
   - intros ks1 ks2. exists (map (get_reply lg) ks1), (map (get_reply lg) ks2).
     unfold Compress.exec. change (cmd_type n_MGET) with TMget. cbn iota.
-    unfold Compress.exec_mget.
-    destruct (ks1 ++ k :: ks2) as [|k0 r] eqn:E; [destruct ks1; discriminate|]. rewrite <- E.
+    destruct (ks1 ++ k :: ks2) as [|k0 r] eqn:E; [destruct ks1; discriminate|]. unfold Compress.exec_mget. rewrite <- E.
     rewrite plain_mget_loop. rewrite first_error_get. cbn [snd].
     rewrite map_app. cbn [map]. unfold get_reply at 2. rewrite Hl.
     split; [reflexivity|]. rewrite !map_length. split; reflexivity.
@@ -374,11 +375,15 @@ Proof.
   - cbn. apply lookup_set_same.
   - cbn. apply lookup_set_same.
   - cbn. apply lookup_set_same.
-  - unfold Compress.exec. change (cmd_type n_MSET) with TMset. cbn iota. unfold Compress.exec_mset.
+  - unfold Compress.exec. change (cmd_type n_MSET) with TMset. cbn iota.
+    destruct args as [|a0 args0]; [cbn in H; inversion H; subst ps; destruct H1|]. remember (a0 :: args0) as args.
+    unfold Compress.exec_mset.
     destruct (plain_mset_loop args ps lg H) as (reps & E & F & L). rewrite E.
     destruct reps as [|r0 l]; cbn [fst]; [apply lookup_set_all; assumption|].
     rewrite F. cbn [fst]. apply lookup_set_all; assumption.
-  - unfold Compress.exec. change (cmd_type n_MSETNX) with TMsetnx. cbn iota. unfold Compress.exec_msetnx. rewrite H.
+  - unfold Compress.exec. change (cmd_type n_MSETNX) with TMsetnx. cbn iota.
+    destruct args as [|a0 args0]; [cbn in H; inversion H; subst ps; destruct H1|]. remember (a0 :: args0) as args.
+    unfold Compress.exec_msetnx. rewrite H.
     destruct ps as [|p ps]; [destruct H1|].
     unfold Compress.single. cbn [Compress.compress_cmd]. unfold backend. rewrite type_MSETNX. rewrite H.
     rewrite existsb_none by assumption. cbn [Compress.decompress_reply fst snd].
